@@ -296,6 +296,16 @@ def oracle_psd(case, R):
     nf = len(freq)
     fpsd = rng.uniform(0.1, 3.0, (nfrc, nf))
     t_frc = rng.standard_normal((n, nfrc))
+    # structured force transformations: a force that loads no modal equation at all (it reaches the recovered
+    # items through the force DRM only) and forces that load a single equation
+    for i_, kind_ in enumerate(case.get("tfrc_cols", [])[:nfrc]):
+        if kind_ == "zero":
+            t_frc[:, i_] = 0.0
+        elif kind_ == "unit":
+            t_frc[:, i_] = 0.0
+            t_frc[i_ % n, i_] = 1.0
+    for kind_ in set(case.get("tfrc_cols", [])[:nfrc]):
+        R.label("tfrc:" + kind_)
     drms = []
     for q in case["drms"]:
         nr = q["rows"]
@@ -435,6 +445,7 @@ def freq_cases(draw, form, psd=False):
         # auto-detection: elastic k must be >= 0.005 (documented); all el/rf here have k >= m*(2 pi 0.3)^2 > 3 m
         pass
     if psd:
+        case.update(tfrc_cols=[draw(st.sampled_from(["full", "full", "full", "zero", "unit"])) for _ in range(3)])
         case.update(nforce=draw(st.integers(1, 3)), solver=draw(st.sampled_from(["SolveUnc", "FreqDirect"])),
                     rbduf=draw(st.sampled_from([1.0, 1.2])), elduf=draw(st.sampled_from([1.0, 1.5])),
                     drms=[{"rows": draw(st.integers(1, 3)), "a": draw(st.booleans()), "v": draw(st.booleans()),
